@@ -187,7 +187,15 @@ fn gen_expr(r: &mut Rng, item: &MVal, root: &MVal, cfg: &GenCfg, depth: usize, a
         let p = MPath { steps: steps.clone(), predicate: None, rootless: false };
         model::select(base, &p, 0).into_iter().filter(|v| v.is_scalar()).collect()
     };
-    let lit = if !reached.is_empty() && r.chance(2, 3) { r.pick(&reached).clone() } else { gen_lit(r, base, cfg) };
+    // one literal in four, where numbers are compared, is a number of the profile's boundary pools instead: another
+    // integer kind, another sign, the neighbour of a limit
+    let lit = if reached.iter().any(|v| v.is_number()) && r.chance(1, 4) {
+        gen::gen_number(r, cfg)
+    } else if !reached.is_empty() && r.chance(2, 3) {
+        r.pick(&reached).clone()
+    } else {
+        gen_lit(r, base, cfg)
+    };
     let path = Operand::Path(from_cur, steps);
     // one comparison in six has a path on BOTH sides (any value of the left against any value of the right)
     if r.chance(1, 6) {
@@ -230,6 +238,32 @@ pub fn gen_path(r: &mut Rng, doc: &MVal, cfg: &GenCfg, filters: bool) -> MPath {
     let filters = filters && doc.node_count() <= 2000;
     if filters && r.chance(1, 12) {
         return MPath { steps: vec![], predicate: Some(gen_expr(r, doc, doc, cfg, 0, false)), rootless: false };
+    }
+    // an array of two or more numbers (bare, or the value of a key of the root): one path in three compares every
+    // element with a number -- another element or a number of the boundary pools -- in either operand order, so that
+    // numbers of different kinds and signs actually meet in a comparison
+    if filters {
+        let (prefix, xs): (Vec<Step>, Option<&Vec<MVal>>) = match doc {
+            MVal::Arr(xs) => (vec![], Some(xs)),
+            MVal::Obj(m) => match m.iter().find(|(_, v)| matches!(v, MVal::Arr(xs) if xs.iter().filter(|x| x.is_number()).count() >= 2)) {
+                Some((k, MVal::Arr(xs))) => (vec![Step::Field(r.below(3) as u8, k.clone())], Some(xs)),
+                _ => (vec![], None),
+            },
+            _ => (vec![], None),
+        };
+        if let Some(xs) = xs {
+            let nums: Vec<&MVal> = xs.iter().filter(|x| x.is_number()).collect();
+            if nums.len() >= 2 && r.chance(1, 3) {
+                let lit = if r.chance(1, 2) { (*r.pick(&nums)).clone() } else { gen::gen_number(r, cfg) };
+                let cur = Operand::Path(true, vec![]);
+                let (l, rr) = if r.chance(1, 4) { (Operand::Lit(lit), cur) } else { (cur, Operand::Lit(lit)) };
+                let e = if r.chance(1, 6) { MExpr::Eq(l, rr) } else { MExpr::Cmp(r.pick(&["!=", "<", "<=", ">", ">="]).to_string(), l, rr) };
+                let mut steps = prefix;
+                steps.push(Step::BrWild);
+                steps.push(Step::Filter(e));
+                return MPath { steps, predicate: None, rootless: false };
+            }
+        }
     }
     let mut steps: Vec<Step> = vec![];
     // deep documents get paths that can follow them down
